@@ -30,6 +30,22 @@ claimed = {
    technique="exhaustive write-fault enumeration on the real Save path: stateless exploration of every failure offset (kernel RLIMIT_FSIZE=k for every byte k of the output) and every unwritable target kind, judged against the ToBytes serialisation through an independent ZIP/XML reader",
    text="For each document of a fixed set (one paragraph inside one buffer block; ~15 KiB mixed document with table, header, footer, list, footnote; documents with incompressible images; thorough adds a ~77 KiB three-image document, an opened foreign package with an edit, a document saved before, an empty document) and EVERY byte offset k of its output file, the real Document.Save runs with the file cut at byte k by the kernel; Save may return nil only if the file read back is a complete ZIP whose parts equal those of ToBytes taken just before. Target paths: plain, Save before any ToBytes, nested new directories, existing longer/shorter file, bare relative name (must be complete, faithful, no trailing bytes); /dev/full, a directory, below a regular file, empty name (must return an error).",
    note="Fault model is a size limit / ENOSPC at a byte offset; close-time failures of network file systems and power-loss durability are not modelled. Documents are a fixed set, not all documents."),
+ "C03": dict(engine="shard+pkgmodel", cat="model_checking", ref="§4 C03, §8",
+   technique="exhaustive enumeration of API-built documents (feature product, feature pairs, element sequences), each taken through three save/open cycles of the real library; consecutive saves compared as w:body trees by the independent reader",
+   text="Every document of (1) 364 constructor/setter values of paragraph, run, table, row, cell, image and section state, one each; (2) all ordered pairs of paragraph/run features on one paragraph and of table/row/cell features on one 3x3 table (quick 32^2+27^2, thorough 72^2+132^2); (3) all sequences of <=3 (quick) / <=4 (thorough) elements over {plain, formatted, heading, page break, list item, image, 2x2 table, merged table, nested table, section settings} x 6 texts (edge blanks, tab, newline, non-ASCII, empty) plus all 2-element sequences with independent texts, is saved, opened and re-saved three times. word/document.xml of consecutive saves is parsed by the independent reader and the body trees compared node by node (namespace-resolved, attribute order and property-container order irrelevant, r:embed/r:id/w:numId/note ids replaced by the content they resolve to). Any element, attribute or text present before and absent/different after is reported as dropped|/changed|/added|/moved| + parent/child path. Exhaustive within these bounds (10,457 / 91,312 documents).",
+   note="Only library-written documents (foreign packages are C04); sequences longer than the bound and argument values outside the listed domains are not covered. One signature per dropped path: a second defect affecting an already-known path is not distinguished from it. 14 reader drops (borders, bookmarks, SDT/TOC, math, floating-image anchor children) are known findings; 10 were repaired by fix: commits."),
+ "C14": dict(engine="shard", cat="model_checking", ref="§4 C14, A.6, §8",
+   technique="exhaustive enumeration of style registries (every based-on function incl. self-reference, cycles and missing parents x every per-style definer state per attribute) on the real StyleManager in worker subprocesses, judged by a reference resolver; crash/hang of a worker is the observed outcome for non-termination; reflection address walk for Clone",
+   text="Every based-on function over n<=3 (quick) / 4 (thorough) styles with targets none, each style incl. itself, an unregistered id (144 / 1440 graphs) x each of the 18 formatting elements named in the property and all of them at once x every assignment {no container, container without the element, element set with a style-unique value} to the styles (99,611 / 3,126,794 registries on top of the predefined styles); every id and one unregistered id is queried through GetStyleWithInheritance (all 18 elements compared with the nearest-definer walk with visited set), ApplyStyleToXML and GetStyleInfo; queries are repeated, the missing parent is registered afterwards and removed again, and the complete registry dump must be unchanged. Queries whose walk reaches a cycle run as separate cases so that a process-killing recursion is recorded as a crash event. Clone: for a registry with every field of every nested structure set (by reflection), the predefined registry and every all-elements graph, no pointer/map address is shared, contents are equal, and mutating every leaf plus add/remove/replace on either side leaves the other's dump unchanged.",
+   note="More than 4 styles, sub-attribute granularity, table properties, and registry edits other than late registration/removal of the missing parent are not covered; ApplyStyleToXML's map has no key for borders, shading, keep/page-break/grid flags, so those are judged on GetStyleWithInheritance only."),
+ "C16": dict(engine="shard", cat="model_checking", ref="§4 C16, A.5, §8",
+   technique="exhaustive enumeration of template trees of the documented grammar x value assignments, real TemplateEngine compared with an AST reference interpreter",
+   text="Every template tree (Lit|Var|If[+else]|Each with item fields, this, @index/@first/@last, item conditionals, nested each; 6 literals incl. newline/braces/non-ASCII) with <= 3 (quick) / 4 (thorough) nodes, nesting 2/3, is crossed with every assignment of 18 value classes (plain strings, empty, int, bool, float, nil, newline, braces and 10 directive-like strings) to the value slots the template can observe, over a fixed data layout with missing/empty/nested entries; each pair is rendered by LoadTemplate+RenderToDocument (and RenderTemplateToDocument for the plain data of every template) and the paragraph texts compared with a reference interpreter evaluated on the generator's tree. A second grammar enumerates base templates with 1-2 blocks x children overriding every subset (block content from 6/8 fragments incl. image placeholder, each, if-else). Exhaustive within the bounds (quick 88,902 pairs, thorough 2.48 M). Re-scanning of substituted values is a known finding (20 value|... signatures).",
+   note="Whitespace-only line = empty line (paragraph splitter treated as output encoding). Scope choices the documentation leaves open are unobservable by construction (disjoint names, item conditions boolean/absent, no If in If, this only for scalars). A structural failure is shrunk to a minimal template, so a second defect in the same templates can be masked until the first is fixed. Value signatures are slot-kind x value-class."),
+ "C20": dict(engine="shard", cat="model_checking", ref="§4 C20, §8",
+   technique="exhaustive small-scope enumeration of documents x export options through the real exporter and the real converter (export, re-import, re-export), judged by token order, exactly-once text, marker structure and byte fixpoint",
+   text="All documents of <=3 (quick) / <=4 (thorough) elements over the exporter vocabulary (15 element kinds: headings 1-3, paragraphs, list item, quote, code paragraph, 2x2 tables, empty paragraph) x 48 export option combinations (GFM tables, setext, 3 bullet markers, 2 emphasis markers, wrap); all 16^n run-format combinations for n<=2/3 runs; 8 metacharacter texts x 9 containers x 4 contexts (thorough: all ordered pairs of metacharacter texts); judged by unique-token order, exactly-once text, nesting of marker strings, token-located block comparison of convert(md1), and md2 = md1 byte for byte (202,560 / 2,666,096 documents).",
+   note="40 signatures are known findings (lists/simple tables not re-importable, formatting flattened on import, naive marker wrapping of adjacent/combined formats, no escaping of metacharacters, outer whitespace); 5 signatures were repaired by fix: commits. Escaping style is free; empty paragraphs are not counted in the block sequence."),
 }
 
 not_yet = {}
